@@ -1,7 +1,7 @@
 (* Model/C07Run.v - case type and checker evaluated on harness-generated cases (C07).
    Every observation was made on the REAL client (child process of harness/c07). *)
 From ReqV Require Export Lib.Bytes Model.Decode Model.BodyStages Model.H1Resp Model.H1Limits Model.AltSvc.
-From ReqV Require Model.Digest Model.H3Frame Model.H3Limits.
+From ReqV Require Model.Digest Model.H3Frame Model.H3Limits Gen.C07Consts.
 
 (* run-length piece for big hostile streams: [repN n b] = n copies of byte b *)
 Definition repN (n b : N) : bytes := repeat (byte_of_N_total b) (N.to_nat n).
@@ -12,7 +12,7 @@ Inductive h1obs :=
 
 Inductive c07_case :=
 (* the reader stack found (by reflection) under Response.Body after RoundTrip *)
-| StageCase (st : stack) (q : reqcfg) (wire_cl : Z) (ended auto : bool) (p : pcfg) (ce ct : bytes)
+| StageCase (st : stack) (q : reqcfg) (wire_cl : Z) (ended auto : bool) (p : pcfg) (resp_ae ce ct : bytes)
             (o : ct_oracle) (obs_tags : list ltag) (obs_nil : bool)
 (* a hostile byte stream served to the real client over TCP; [limit] = MaxResponseHeaderBytes,
    [slack] = read buffer size (bytes possibly buffered before a budget reset) *)
@@ -59,10 +59,13 @@ Definition xmatch (x : exchange) (cmp_body : bool) (o : h1obs) : bool :=
 
 Definition c07_check (c : c07_case) : bool :=
   match c with
-  | StageCase st q wire_cl ended auto p ce ct o tags bottom_nil =>
+  | StageCase st q wire_cl ended auto p resp_ae ce ct o tags bottom_nil =>
       let tc := {| t_head := q_head q; t_wire_cl := wire_cl; t_ended := ended;
                    t_asked := asked_gzip st q; t_auto := auto |} in
-      let b := pipeline st tc p ce ct o in
+      (* which response header guards the decoder stage is read off the source by gosync *)
+      let guard := guard_value (bytes_eqb C07Consts.fork_autodecode_guard_header (bs "Content-Encoding"))
+                               resp_ae ce (transport_rewrites st tc ce) in
+      let b := pipeline st tc p guard ce ct o in
       let '(ts, n) := flatten b in
       list_eqb ltag_eqb ts tags && Bool.eqb n bottom_nil && sound b
   | H1Case m bsz lim slack s cmp o =>
